@@ -1,2 +1,3 @@
 from . import rules_alloc  # noqa
 from . import rules_arch  # noqa
+from . import rules_walk  # noqa
